@@ -92,6 +92,16 @@ void Logger::processMessage(QtMsgType type, const QMessageLogContext &context,
 
     LogMessage lmsg(type, context, message);
     process(lmsg);
+
+    if (type == QtFatalMsg) {
+        // Qt aborts the process as soon as the message handler returns: buffered sinks
+        // (files) would lose this message and everything still in their buffers.
+        // In asynchronous mode the sinks belong to the logger thread and are left alone.
+#ifndef QTLOGGER_NO_THREAD
+        if (!ownThreadIsRunning())
+#endif
+            flush();
+    }
 }
 
 QTLOGGER_DECL_SPEC
